@@ -7,6 +7,7 @@
 package statespace
 
 import (
+	"crypto/sha256"
 	"runtime"
 	"sync"
 	"sync/atomic"
@@ -43,8 +44,16 @@ type Result struct {
 }
 
 type succ struct {
-	key  string
+	key  [16]byte
 	hist []int
+}
+
+// digest shortens a canonical key to 128 bits of SHA-256 (keys are kilobytes long; a collision
+// would merge two states silently, which at 2^-128 per pair is ignored).
+func digest(key string) (d [16]byte) {
+	h := sha256.Sum256([]byte(key))
+	copy(d[:], h[:16])
+	return d
 }
 
 // Search runs the BFS.
@@ -55,9 +64,9 @@ func Search(sys System) Result {
 	}
 	var res Result
 	res.Complete = true
-	seen := map[string]struct{}{}
+	seen := map[[16]byte]struct{}{}
 	k0, _ := sys.Step(nil)
-	seen[k0] = struct{}{}
+	seen[digest(k0)] = struct{}{}
 	res.States = 1
 	res.PerDepth = []int64{1}
 	if sys.Invariant != nil {
@@ -95,7 +104,7 @@ func Search(sys System) Result {
 							continue
 						}
 						trans.Add(1)
-						results[i] = append(results[i], succ{key, nh})
+						results[i] = append(results[i], succ{digest(key), nh})
 					}
 				}
 			}()
